@@ -258,6 +258,8 @@ pub fn ccfg(g: &CfgGene) -> CCfg {
         lang: g.lang.clone(),
         empty_metadata: false,
         alias_builder: false,
+        // a third of the configurations set things twice (decoy first, real value last), see CCfg::reconfig
+        reconfig: if (g.width as u32 + g.height as u32) % 3 == 0 { (g.width % 16) as u8 } else { 0 },
     }
 }
 
@@ -547,7 +549,9 @@ pub fn lower(c: &ValidCase) -> Lowered {
             }
             let mut jit = g.jit;
             if i > 0 && g.dpts == 0 {
-                jit = prev_jit;
+                // same tick as the previous audio frame: either the very same f64, or (half of the cases) a strictly later
+                // instant less than one tick away, e.g. a backlog stamped with a fine-grained clock
+                jit = if g.shape & 0x40 != 0 && prev_jit < 49 { (prev_jit + 1 + (g.shape % 5) as i8).min(49) } else { prev_jit };
             }
             let mut s = secs(pts, jit);
             if pts == v0_pts {
@@ -778,7 +782,7 @@ pub fn av1_seq_strategy() -> impl Strategy<Value = Av1Seq> {
         (
             any::<u32>(),
             any::<u32>(),
-            option::weighted(0.5, prop_oneof![0u32..8, any::<u32>()]),
+            option::weighted(0.5, prop_oneof![4 => 0u32..8, 4 => any::<u32>(), 1 => Just(u32::MAX), 1 => Just(u32::MAX - 1), 1 => Just(0x7fff_ffffu32)]),
             option::weighted(
                 0.5,
                 (0u8..32, any::<u32>(), 0u8..32, 0u8..32).prop_map(|(a, b, c, d)| Av1DecoderModel {
